@@ -46,9 +46,12 @@ class Site:
         # private helper (name starting with '_') is anchored at the nearest non-private caller on its call path, so that
         # extracting a decision into a shared helper (or inlining it again) does not turn a listed finding into a new one.
         anchored = self.func
-        if anchored.rsplit(".", 1)[-1].startswith("_") and self.path:
+        def _private(q):
+            n_ = q.rsplit(".", 1)[-1]
+            return n_.startswith("_") and not n_.startswith("__")
+        if _private(anchored) and self.path:
             for q_ in reversed(self.path[:-1]):
-                if not q_.rsplit(".", 1)[-1].startswith("_"):
+                if not _private(q_):
                     anchored = q_
                     break
         f = anchored.rsplit(".", 2)[-1] if anchored.startswith("coxeter.") else anchored
